@@ -99,6 +99,9 @@ def handle : Handler := fun op inp =>
         ("runTree", jExcept Tree.jTree (runTree t cfg)),
         ("effChunk", jNat cs),
         ("chunks", jList (jPair jNat jNat) (chunks n cs))]
+  | "levelloop.wf" => some do
+      let t ← Tree.parseTree (← field inp "tree")
+      return jBool (wfb t)
   | "levelloop.backfill" => some do
       let t ← Tree.parseTree (← field inp "tree")
       let rs ← asList parseRecord (← field inp "records")
